@@ -297,9 +297,9 @@ type tmplCtx struct {
 }
 
 type tmplAction struct {
-	pipe    string
-	ctx     []string
-	before  string // literal text seen so far (for the HTML context)
+	pipe   string
+	ctx    []string
+	before string // literal text seen so far (for the HTML context)
 }
 
 func c06Template(c *Ctx, text string, funcs map[string]*ssa.Function) {
@@ -542,8 +542,9 @@ func argParam(f *ssa.Function, k int) ssa.Value {
 
 // elementwiseMap: fn(xs) returns a slice with exactly one element per element of its first slice parameter, in
 // order, the i-th being conv(&xs[i]):
-//   r := make([]T, len(xs)); for i := range xs { r[i] = conv(xs[i]) }; return r          (indexed form)
-//   r := make([]T, 0, n) | nil; for i := range xs { r = append(r, conv(xs[i])) }; return r  (append form)
+//
+//	r := make([]T, len(xs)); for i := range xs { r[i] = conv(xs[i]) }; return r          (indexed form)
+//	r := make([]T, 0, n) | nil; for i := range xs { r = append(r, conv(xs[i])) }; return r  (append form)
 func elementwiseMap(c *Ctx, fn *ssa.Function, isConv func(*ssa.Call) bool) bool {
 	if len(fn.Params) == 0 {
 		return false
